@@ -18,7 +18,7 @@ class C03(SchedProp):
                    "per-execution step horizon = 50x the default run's pops + 500; exceeding it is reported as livelock"]
     kinds = ["perm"]
     families = {"quick": [("FTC3", 42), ("FR", 32), ("FC3m", 48), ("F3.2", 96), ("F2.3", 192), ("F1.3s", 48), ("F1.2q", 96), ("F3.1", 8), ("F2.2", 8), ("F1.1", 4)],
-                "thorough": [("FTC3", 42), ("F1.2q", 96), ("FR", 32), ("FC3m", 48), ("FC3g/16", 32), ("F3.3/16", 64), ("F2.4/8", 32), ("F3.2", 96), ("F2.3", 192), ("F1.3s", 48), ("F1.2", 128),
+                "thorough": [("FTC3", 42), ("F1.2q", 96), ("FR", 32), ("FC3m", 48), ("FC3g/64", 32), ("F3.3/64", 32), ("F2.4/32", 32), ("F3.2", 96), ("F2.3", 192), ("F1.3s", 48), ("F1.2/8", 64),
                              ("F3.1", 8), ("F2.2", 8), ("F1.1", 4)]}
     budget = {"quick": 300, "thorough": 2700}
 
